@@ -39,6 +39,20 @@ def install(eng):
     m(r'^bumpalo::collections::Vec::len$', m_vec_len)
     m(r'^core::slice::<impl \[.*\]>::len$', lambda e, a, c: e.slice_len(as_slice(e, a[0])))
 
+    def m_slice_contains(eng, args, ctx):
+        s = as_slice(eng, args[0])
+        x = args[1]
+        n = conc(z3.simplify(eng.slice_len(s)))
+        if n is None:
+            raise Unsupported('contains on a slice of symbolic length')
+        xv = x.cell.get(eng) if isinstance(x, Ref) else x
+        for i in range(n):
+            y = eng.seq_cell(s.seq, bvadd(s.start, bv(i, 64))).get(eng)
+            if eng.fork_bool(to_z3_bool(eng.value_eq(y, xv, ctx.frame))):
+                return True
+        return False
+    m(r'^core::slice::<impl \[.*\]>::contains$', m_slice_contains)
+
     def m_split_at(eng, args, ctx):
         s = as_slice(eng, args[0])
         mid = args[1]
@@ -275,6 +289,64 @@ def install(eng):
     m(r'^<.* as (std::iter::|core::iter::)?Iterator>::map$', lambda e, a, c: MapIter(a[0], a[1]), fallback=True)
     m(r'^<.* as (std::iter::|core::iter::)?Iterator>::zip$', lambda e, a, c: ZipIter(a[0], a[1] if not isinstance(a[1], (Ref, SymSeq, ConcSeq, SliceRef)) or isinstance(a[1], Ref) and isinstance(a[1].cell.get(e), SliceIter) else SliceIter(as_slice(e, a[1]))), fallback=True)
     m(r'^<.* as (std::iter::|core::iter::)?Iterator>::enumerate$', lambda e, a, c: EnumIter(a[0]), fallback=True)
+
+    class RevSliceIter:
+        """slice::Iter reversed: yields from the back"""
+        def __init__(self, it):
+            self.s, self.front, self.taken = it.s, it.pos, bv(0, 64)
+
+        def iter_next(self, eng, fr):
+            ln = eng.slice_len(self.s)
+            remaining = z3.simplify(ln - self.front - self.taken)
+            if eng.fork_bool(z3.And(z3.ULE(self.front + self.taken, ln), remaining != 0)):
+                idx = z3.simplify(ln - 1 - self.taken)
+                self.taken = z3.simplify(self.taken + 1)
+                return Ref(eng.seq_cell(self.s.seq, bvadd(self.s.start, idx)))
+            return None
+
+        def copy_value(self, eng):
+            return self
+
+    class SkipIter:
+        def __init__(self, it, n):
+            self.it, self.n = it, n
+
+        def iter_next(self, eng, fr):
+            while True:
+                if conc(z3.simplify(self.n)) == 0 or not eng.fork_bool(self.n != 0):
+                    self.n = bv(0, 64)
+                    return it_next(eng, self.it, fr)
+                self.n = z3.simplify(self.n - 1)
+                if it_next(eng, self.it, fr) is None:
+                    return None
+
+        def copy_value(self, eng):
+            return self
+
+    class TakeIter:
+        def __init__(self, it, n):
+            self.it, self.n = it, n
+
+        def iter_next(self, eng, fr):
+            if conc(z3.simplify(self.n)) == 0 or not eng.fork_bool(self.n != 0):
+                return None
+            self.n = z3.simplify(self.n - 1)
+            return it_next(eng, self.it, fr)
+
+        def copy_value(self, eng):
+            return self
+
+    def m_rev(e, a, c):
+        it = a[0]
+        if isinstance(it, Ref):
+            it = it.cell.get(e)
+        if isinstance(it, SliceIter):
+            return RevSliceIter(it)
+        return NotImplemented
+    m(r'^<.* as (std::iter::|core::iter::)?Iterator>::rev$', m_rev, fallback=True)
+    m(r'^<.* as (std::iter::|core::iter::)?Iterator>::skip$', lambda e, a, c: SkipIter(a[0], a[1]), fallback=True)
+    m(r'^<.* as (std::iter::|core::iter::)?Iterator>::take$', lambda e, a, c: TakeIter(a[0], a[1]), fallback=True)
+    m(r'^<(std::iter::|core::iter::)?(adapters::)?(\w+::)?(Rev|Skip|Take) as (std::iter::|core::iter::)?Iterator>::next$', lambda e, a, c: m_gen_next(e, a, c))
 
     def m_collect(eng, args, ctx):
         out = []
